@@ -58,6 +58,7 @@ OTHERCHAN = '#d'
 # observation of the implementation
 # ------------------------------------------------------------------------------------------
 DEBUG = {}
+PARTIAL = []
 EXTRA_EVIDENCE = {}
 SITE_OUT = [None]
 FINDING_STATUS = {}
@@ -340,7 +341,7 @@ def snapshot(b, light=False):
     s['ircs'] = [(i.network, i.zombie) for i in b.world.ircs]
     s['events'] = sorted(str(k) for k in b.schedule.schedule.events)
     s['joined'] = sorted(b.irc.state.channels)
-    s['disabled'] = sorted((k, None if v is None else tuple(sorted(v))) for k, v in b.callbacks.Commands._disabled.d.items())
+    s['disabled'] = sorted((repr(k), None if v is None else repr(sorted(map(repr, v)))) for k, v in b.callbacks.Commands._disabled.d.items())
     for cb in b.irc.callbacks:
         n = cb.name()
         if n == 'Alias':
@@ -557,6 +558,7 @@ def explore(ctx, b, w, table, required, n_extra):
             for path, m in walk_commands(cb):
                 instrument_body(cb, cb.name(), path, m)
     cases = []; lines = []; pend = []
+    PARTIAL[:] = [cases, lines, pend]
     last_dump = [None]
 
     def send_db():
@@ -1087,9 +1089,9 @@ def explore(ctx, b, w, table, required, n_extra):
                ['http://x/'], ['s/a/b/'], ['m/./'], [NICK], ['a b'], [''], ['\x01'], [CHAN, 'cop'], ['global'], ['aa'], ['xxx'], ['1'], ['True']]
     conv_effects = {}
     for (ci, cname) in CONV_NAMES:
-        vecs = HOSTILE if ctx.thorough else [HOSTILE[(ci * 5 + j * 7 + ctx.seed) % len(HOSTILE)] for j in range(4)]
+        vecs = [HOSTILE[(ci * 5 + j * 7 + ctx.seed) % len(HOSTILE)] for j in range(12 if ctx.thorough else 4)]
         for vi, args in enumerate(vecs):
-            for who, tgt in ((('plain', CHAN), ('unreg', NICK), ('chanop', CHAN), ('secure', NICK)) if ctx.thorough else (('plain', CHAN), ('unreg', NICK))):
+            for who, tgt in ((('plain', CHAN), ('unreg', NICK), ('chanop', NICK)) if ctx.thorough else (('plain', CHAN), ('unreg', NICK))):
                 text = ('@' if tgt == CHAN else '') + 'cv%d %s' % (ci, ' '.join(quote(a) for a in args))
                 Obs.execute = None
                 del CONV_LOG[:]
@@ -1651,7 +1653,20 @@ def run(ctx):
         table, required = read_table(True)
     else:
         table, required = {}, required_fallback()
-    clp = explore(ctx, b, w, table, required, 0)
+    try:
+        clp = explore(ctx, b, w, table, required, 0)
+    except Exception:
+        # a refused command that nevertheless ran (say `unload`, `quit`) can wreck the bot under the rest of the
+        # exploration: what was found up to there is still reported
+        time.time = _real_time
+        if PARTIAL and any(c.oracle_ok is False and c.finding is None for c in PARTIAL[0]):
+            import traceback
+            sys.stderr.write('exploration aborted after an oracle failure had been recorded:\n' + traceback.format_exc())
+            cs, ls, ps = PARTIAL
+            n = min(len(ls), len(ps))
+            clp = (cs, ls[:n], ps[:n])
+        else:
+            raise
     cases = fill_model(clp) if build.driver_ok else clp[0]
     def search(disagreements, broken):
         # the oracle already ran on every case; anything it found is in `cases`
